@@ -15,7 +15,7 @@ ap.add_argument('--patch', action='append', default=[])
 ap.add_argument('--summary')
 ap.add_argument('--refactors', action='store_true', help='apply each behaviour-preserving refactoring under refactors/ and require silence from every check')
 a = ap.parse_args()
-env = dict(os.environ, GOFLAGS='-mod=mod', GOPROXY='off', GOSUMDB='off', GOTOOLCHAIN='local'); env.pop('GOWORK', None)
+env = dict(os.environ, GOFLAGS='-mod=mod -trimpath', GOPROXY='off', GOSUMDB='off', GOTOOLCHAIN='local'); env.pop('GOWORK', None)
 muts = json.load(open(os.path.join(here, 'selftest', 'mutants.json')))
 if a.seeded:
     muts = []
